@@ -24,8 +24,9 @@ Open Scope Z_scope.
      BValid           err = nil, no strict errors
      BUnknownField    err = nil, strict error `unknown field "..."`
      BDuplicateField  err = nil, strict error `duplicate field "..."` (last value wins)
+     BUnknownAndDuplicate  err = nil, strict errors of both kinds
      BInvalidJson     err <> nil (truncated text, wrong top-level type, ...) *)
-Inductive body_class := BValid | BUnknownField | BDuplicateField | BInvalidJson.
+Inductive body_class := BValid | BUnknownField | BDuplicateField | BUnknownAndDuplicate | BInvalidJson.
 
 Record body := mkBody { b_id : Z; b_class : body_class }.
 
@@ -120,7 +121,7 @@ Definition adjust (cfg : config) (c : cache) (k : key) (sent : string) (r : resp
 Definition decode (cfg : config) (b : body) : outcome :=
   match b_class b with
   | BValid => OkBody b
-  | BUnknownField | BDuplicateField => if cfg_strict cfg then Err else OkBody b
+  | BUnknownField | BDuplicateField | BUnknownAndDuplicate => if cfg_strict cfg then Err else OkBody b
   | BInvalidJson => Err
   end.
 
@@ -198,7 +199,8 @@ Definition is_ok (o : outcome) : bool := match o with OkBody _ => true | _ => fa
 Definition body_class_eqb (a b : body_class) : bool :=
   match a, b with
   | BValid, BValid | BUnknownField, BUnknownField
-  | BDuplicateField, BDuplicateField | BInvalidJson, BInvalidJson => true
+  | BDuplicateField, BDuplicateField | BInvalidJson, BInvalidJson
+  | BUnknownAndDuplicate, BUnknownAndDuplicate => true
   | _, _ => false
   end.
 Definition body_eqb (a b : body) : bool :=
@@ -271,6 +273,19 @@ Definition served_ok (pairs : list pair) (sent : string) (rp : reply) (o : outco
   | _, _ => true
   end.
 
+(* No call succeeds with a value decoded from a body the mode rejects, whether
+   the body arrived with this response or was replayed from the cache on
+   304/412: never from undecodable text, and in strict mode never from a body
+   with unknown or duplicate fields. *)
+Definition body_acceptable (cfg : config) (b : body) : bool :=
+  match b_class b with
+  | BValid => true
+  | BInvalidJson => false
+  | BUnknownField | BDuplicateField | BUnknownAndDuplicate => negb (cfg_strict cfg)
+  end.
+Definition accepted_body_ok (cfg : config) (o : outcome) : bool :=
+  match o with OkBody b => body_acceptable cfg b | _ => true end.
+
 (* without ETag support no If-None-Match header is ever sent *)
 Definition plain_ok (cfg : config) (sent : string) : bool :=
   cfg_etag cfg || negb (header_sent sent).
@@ -296,4 +311,5 @@ Definition call_clauses (cfg : config) (pairs : list pair) (sent : string) (rp :
    ("error-accepted", error_ok rp o);
    ("304-body-not-for-sent-etag", served_ok pairs sent rp o);
    (decode_clause_name cfg rp, decode_ok cfg rp o);
+   ("strict-invalid-accepted-on-replay", accepted_body_ok cfg o);
    ("plain-sent-if-none-match", plain_ok cfg sent)].
